@@ -45,6 +45,21 @@ def eval_source(o, shard, nshards):
     return "\n".join(src), idx
 
 
+def bt_eval_source(blocks):
+    """one Coq file for several backtracking blocks (each: all its patterns x all its types)"""
+    src = ["From Coq Require Import List ZArith NArith Bool String.",
+           "From RG.Types Require Import GType XIdentical TypePat TypePatInst C14Run.",
+           "Import ListNotations. Local Open Scope string_scope."]
+    for k, m in blocks:
+        src.append("Definition tys%d : list gtype := [\n%s\n]." % (k, ";\n".join(m["terms"])))
+        src.append("Definition pats%d : list tpat := [\n%s\n]." % (k, ";\n".join(m["trees"])))
+        src.append("Definition Rw_%d := Eval vm_compute in ((bad_indices wf tys%d ++ bad_indices (in_univ 1) tys%d)%%list).\nPrint Rw_%d."
+                   % (k, k, k, k))
+        src.append("Definition Rm_%d := Eval vm_compute in (mismatches match_pat_x pats%d tys%d %s).\nPrint Rm_%d."
+                   % (k, k, k, coq_str_list(m["obs"]), k))
+    return "\n".join(src)
+
+
 def run(c):
     from vlib import parse_coq_print
     c.go2coq_sources = ["c20.go", "c10.go"]
@@ -120,8 +135,30 @@ def run(c):
                 src, idx = eval_source(o, sh, NSH)
                 jobs.append(("Cases_%s_s%d_a%s_%d.v" % (tag, o["seed"], o["alias"], sh), src))
                 meta.append((o, idx))
-        results = c.coq_eval_many(jobs, timeout=1200)
-        model_bad = {}   # id(o) -> set of (pattern index, type index) where model != observed; None when unavailable
+        NBT = 6
+        bt_jobs = []
+        for o in obs:
+            bt = o.get("bt") or []
+            for sh in range(NBT):
+                blocks = [(k, m) for k, m in enumerate(bt) if k % NBT == sh and m["pats"]]
+                if blocks:
+                    bt_jobs.append(("CasesBT_%s_s%d_a%s_%d.v" % (tag, o["seed"], o["alias"], sh), bt_eval_source(blocks), blocks))
+        all_results = c.coq_eval_many(jobs + [(f, src) for f, src, _ in bt_jobs], timeout=1200)
+        results = all_results[:len(jobs)]
+        model_bad = {}   # id(matrix) -> set of (pattern index, type index) where model != observed; None when unavailable
+        for (fname, _, blocks), (ok, out) in zip(bt_jobs, all_results[len(jobs):]):
+            if not ok:
+                c.obligation("coq-eval:" + fname, False, out[-2000:])
+            for k, m in blocks:
+                rw, rm = (parse_coq_print(out, "Rw_%d" % k), parse_coq_print(out, "Rm_%d" % k)) if ok else (None, None)
+                if rw is None or rm is None:
+                    if ok:
+                        c.obligation("coq-eval-parse:%s:%d" % (fname, k), False, out[-1500:])
+                    model_bad[id(m)] = None
+                    continue
+                if nats(rw):
+                    c.obligation("pool-terms-ok:%s:%d" % (fname, k), False, "terms violating wf / in_univ: %s" % rw)
+                model_bad[id(m)] = set(pairs(rm))
         for (fname, _), (o, idx), (ok, out) in zip(jobs, meta, results):
             key = id(o)
             if not ok:
@@ -137,6 +174,56 @@ def run(c):
                 c.obligation("pool-terms-ok:" + fname, False, "terms violating wf / in_univ: %s %s" % (R["R_wf"], R["R_un"]))
             if model_bad.get(key, set()) is not None:
                 model_bad.setdefault(key, set()).update((idx[i], j) for (i, j) in pairs(R["R_m"]))
+        def check_matrix(m, ctx, mb):
+            mode = ctx["gotypesalias"]
+            have_model = mb is not None
+            for p in m.get("panics") or []:
+                c.fail("oracle", "typematch panics", input=dict(ctx, call=p), observed="panic", expected="an answer")
+            for e in m.get("parse_err") or []:
+                c.fail("corr", "typematch.Parse rejects a pattern of the generator's grammar (or the harness cannot read its own pattern)",
+                       input=dict(ctx, pattern=e))
+            pats, tys = m["pats"], m["types"]
+            for i, p in enumerate(pats):
+                if m["trees"][i] != m["exp_trees"][i]:
+                    c.fail("corr", "typematch.Parse built a different tree than the pattern string means",
+                           input=dict(ctx, pattern=p), expected=m["exp_trees"][i], observed=m["trees"][i])
+            kinds = [re.match(r"T \(?(H\w+)", t).group(1) for t in m["terms"]]
+            pk = {"PPointer": "HPointer", "PSlice": "HSlice", "PArrayN": "HArray", "PArrayVar": "HArray", "PMap": "HMap",
+                  "PChan": "HChan", "PFunc": "HSig", "PStruct": "HStruct"}
+            for i, p in enumerate(pats):
+                root = pk.get(m["trees"][i].split(" ")[0])
+                flexible = m["has_seq"][i] or m["nvars"][i] > 0
+                for j, t in enumerate(tys):
+                    c.evaluations += 1
+                    ob, orc, cl = m["obs"][i][j], m["oracle"][i][j], m["closed"][i][j]
+                    if orc == "1" or (flexible and root == kinds[j]):
+                        c.nontrivial.add((mode, p, t))
+                    model = None
+                    if have_model:
+                        model = ob if (i, j) not in mb else ("0" if ob == "1" else "1")
+                    expected = orc
+                    if cl in "01" and not m["vendored"][j] and cl != orc:
+                        c.fail("corr", "the two oracles disagree (brute force vs types.Identical of the spelled type)",
+                               input=dict(ctx, pattern=p, type=t), expected=cl, observed=orc)
+                    if ob != expected:
+                        finding = None
+                        if model == ob:
+                            if ob == "1" and m["names_generic"][i] and m["instantiated"][j]:
+                                finding = F_GENERIC
+                            elif ob == "0" and m["names_alias"][i]:
+                                finding = F_ALIAS
+                            elif ob == "0" and m["nested_vendor"][j]:
+                                finding = F_NESTED
+                        c.fail("oracle", "Pattern.MatchIdentical contradicts the assignment search"
+                               + (" and types.Identical with the spelled type" if cl in "01" else ""),
+                               input=dict(ctx, pattern=p, type=t), expected=expected == "1", observed=ob == "1", finding=finding)
+                    elif have_model and model != ob:
+                        c.fail("corr", "model match_pat_x differs from Pattern.MatchIdentical",
+                               input=dict(ctx, pattern=p, tree=m["trees"][i], type=t), observed=ob == "1", expected=model == "1")
+            if have_model:
+                c.coverage["model_vs_impl_cases"] = c.coverage.get("model_vs_impl_cases", 0) + len(m["pats"]) * len(m["types"])
+            c.coverage["oracle_assignments_tried"] = c.coverage.get("oracle_assignments_tried", 0) + m["assignments_tried"]
+
         for o in obs:
             mode = o["alias"]
             ctx = {"gotypesalias": mode, "seed": o["seed"]}
@@ -144,49 +231,13 @@ def run(c):
             have_model = mb is not None
             if o.get("unsupported"):
                 c.obligation("pool-inside-model-fragment", False, o["unsupported"])
-            for p in o.get("panics") or []:
-                c.fail("oracle", "typematch panics", input=dict(ctx, call=p), observed="panic", expected="an answer")
-            for e in o.get("parse_err") or []:
-                c.fail("corr", "typematch.Parse rejects a pattern of the generator's grammar (or the harness cannot read its own pattern)",
-                       input=dict(ctx, pattern=e))
+            check_matrix(o, ctx, mb)
+            for m in o.get("bt") or []:
+                check_matrix(m, dict(ctx, block=m["name"]), model_bad.get(id(m)))
+                c.coverage["backtracking_blocks"] = len(o["bt"])
+                c.coverage["backtracking_patterns"] = sum(len(x["pats"]) for x in o["bt"])
+                c.coverage["backtracking_cases"] = sum(len(x["pats"]) * len(x["types"]) for x in o["bt"])
             pats, tys = o["pats"], o["types"]
-            for i, p in enumerate(pats):
-                if o["trees"][i] != o["exp_trees"][i]:
-                    c.fail("corr", "typematch.Parse built a different tree than the pattern string means",
-                           input=dict(ctx, pattern=p), expected=o["exp_trees"][i], observed=o["trees"][i])
-            kinds = [re.match(r"T \(?(H\w+)", t).group(1) for t in o["terms"]]
-            pk = {"PPointer": "HPointer", "PSlice": "HSlice", "PArrayN": "HArray", "PArrayVar": "HArray", "PMap": "HMap",
-                  "PChan": "HChan", "PFunc": "HSig", "PStruct": "HStruct"}
-            for i, p in enumerate(pats):
-                root = pk.get(o["trees"][i].split(" ")[0])
-                flexible = o["has_seq"][i] or o["nvars"][i] > 0
-                for j, t in enumerate(tys):
-                    c.evaluations += 1
-                    ob, orc, cl = o["obs"][i][j], o["oracle"][i][j], o["closed"][i][j]
-                    if orc == "1" or (flexible and root == kinds[j]):
-                        c.nontrivial.add((mode, p, t))
-                    model = None
-                    if have_model:
-                        model = ob if (i, j) not in mb else ("0" if ob == "1" else "1")
-                    expected = orc
-                    if cl in "01" and not o["vendored"][j] and cl != orc:
-                        c.fail("corr", "the two oracles disagree (brute force vs types.Identical of the spelled type)",
-                               input=dict(ctx, pattern=p, type=t), expected=cl, observed=orc)
-                    if ob != expected:
-                        finding = None
-                        if model == ob:
-                            if ob == "1" and o["names_generic"][i] and o["instantiated"][j]:
-                                finding = F_GENERIC
-                            elif ob == "0" and o["names_alias"][i]:
-                                finding = F_ALIAS
-                            elif ob == "0" and o["nested_vendor"][j]:
-                                finding = F_NESTED
-                        c.fail("oracle", "Pattern.MatchIdentical contradicts the assignment search"
-                               + (" and types.Identical with the spelled type" if cl in "01" else ""),
-                               input=dict(ctx, pattern=p, type=t), expected=expected == "1", observed=ob == "1", finding=finding)
-                    elif have_model and model != ob:
-                        c.fail("corr", "model match_pat_x differs from Pattern.MatchIdentical",
-                               input=dict(ctx, pattern=p, tree=o["trees"][i], type=t), observed=ob == "1", expected=model == "1")
             # ---- engine level: the same patterns through Where(Type.Is / Type.Underlying().Is) and a list capture
             eo = o.get("engine")
             if eo is not None:
@@ -236,14 +287,11 @@ def run(c):
                                expected=ru["oracle"], observed=ru["obs"])
                 c.coverage["group_sequence_files"] = len(files)
                 c.coverage["group_sequence_rules"] = len(go_["rules"])
-            if have_model:
-                c.coverage["model_vs_impl_cases"] = c.coverage.get("model_vs_impl_cases", 0) + len(pats) * len(tys)
             c.coverage["patterns"] = len(pats)
             c.coverage["patterns_with_seq"] = sum(1 for x in o["has_seq"] if x)
             c.coverage["patterns_with_vars"] = sum(1 for x in o["nvars"] if x)
             c.coverage["types"] = len(tys)
             c.coverage["matching_pairs"] = sum(r.count("1") for r in o["oracle"])
-            c.coverage["oracle_assignments_tried"] = c.coverage.get("oracle_assignments_tried", 0) + o["assignments_tried"]
             for i in (3, len(pats) // 2, len(pats) - 20):
                 j = o["oracle"][i].find("1")
                 c.sample({"gotypesalias": mode, "pattern": pats[i], "tree": o["trees"][i][:300], "type": tys[max(j, 0)],
